@@ -355,6 +355,7 @@ func drvLink(c *ctx) error {
 			c.linkCase(c.cases[i])
 		}
 	case "flips":
+		cmdTypeEvents(c)
 		for i := 0; i < c.n; i++ {
 			c.flipSweep()
 		}
